@@ -142,25 +142,22 @@ def lastNullCheckX (n : Nat) (H : List (List Nat)) : Bool :=
 
 /-- returns the new global PRNG state, the status and the configured session -/
 def setParams (IO : SymIO σ) (g : Nat) (s : Session σ) (p : Params) : Nat × Status × Session σ :=
-  -- generic layer: zero sizes are rejected before the codec sees them
-  if p.k == 0 || p.r == 0 || p.len == 0 then (g, .fatal, s)
-  else if s.codec == 2 && !(p.m == 4 || p.m == 8) then (g, .fatal, s)
+  -- RS-2^m initialises its limits as soon as the sizes are non-zero and m is acceptable
+  let s1 : Session σ := if s.codec == 2 && (p.m == 4 || p.m == 8) && !(p.k == 0 || p.r == 0 || p.len == 0)
+    then { s with maxInit := true, fieldM := p.m } else s
+  if !withinLimits s.codec p then (g, .fatal, s1)
+  else if s.codec == 3 then
+    match Rfc5170.create CSem.rne53 g p.k p.r p.N1 p.seed.toNat with
+    | (g', none) => (g', .fatal, s1)
+    | (g', some M) =>
+      let O := IO.ops 3 p.m p.len
+      let it0 : IT.St σ := IT.init p.k M.rows
+      -- a decoder pretends to have received the last repair symbol when it is known to be zero
+      let lastNull := !M.extra && p.N1 % 2 == 0
+      let it1 := if isDec s && lastNull then IT.submit O p.n it0 (p.n - 1) O.zero else it0
+      (g', .ok, { s1 with params := some p, H := M.rows, extra := M.extra, it := some it1 })
   else
-    -- RS-2^m initialises its limits as soon as m is acceptable
-    let s := if s.codec == 2 then { s with maxInit := true, fieldM := p.m } else s
-    if !withinLimits s.codec p then (g, .fatal, s)
-    else if s.codec == 3 then
-      match Rfc5170.create CSem.rne53 g p.k p.r p.N1 p.seed.toNat with
-      | (g', none) => (g', .fatal, s)
-      | (g', some M) =>
-        let O := IO.ops 3 p.m p.len
-        let it0 : IT.St σ := IT.init p.k M.rows
-        -- a decoder pretends to have received the last repair symbol when it is known to be zero
-        let lastNull := !M.extra && p.N1 % 2 == 0
-        let it1 := if isDec s && lastNull then IT.submit O p.n it0 (p.n - 1) O.zero else it0
-        (g', .ok, { s with params := some p, H := M.rows, extra := M.extra, it := some it1 })
-    else
-      (g, .ok, { s with params := some p })
+    (g, .ok, { s1 with params := some p })
 
 /-! ## decoding -/
 
